@@ -435,6 +435,101 @@ Definition fe_broadcast (x : operand) (Ne nPg td : nat) : result :=
       end
   end.
 
+(* ---------------- reductions with keepdims=True ---------------- *)
+Fixpoint keep_axes_from (i : nat) (axes s : list nat) : list nat :=
+  match s with
+  | [] => []
+  | d :: r => (if memb i axes then 1 else d) :: keep_axes_from (S i) axes r
+  end.
+(* drop the entries of an index that sit on reduced axes *)
+Fixpoint drop_axes_from {A} (i : nat) (axes : list nat) (k : list A) : list A :=
+  match k with
+  | [] => []
+  | x :: r => if memb i axes then drop_axes_from (S i) axes r else x :: drop_axes_from (S i) axes r
+  end.
+Definition reduce_arr_kd (f : list V -> V) (axes : list nat) (a : arr) : arr :=
+  mkArr (keep_axes_from 0 axes (shape a))
+        (fun k => dat (reduce_arr f axes a) (drop_axes_from 0 axes k)).
+
+Definition fe_reduce_kd (op : nat) (axis : option (list Z)) (x : operand) : result :=
+  let a := oarr x in
+  let nd := length (shape a) in
+  let axes := match axis with None => all_axes nd | Some l => map (norm_axis nd) l end in
+  let r := reduce_arr_kd (vred op) axes a in
+  if is_fe x && keeps_fe_axes axis (Z.of_nat nd) && (2 <=? length (shape r)) then RFe r else RPlain r.
+
+(* ---------------- np.swapaxes / np.concatenate / np.stack through __array_function__ ----------
+   values are numpy's; the TYPE is the rule as written in FeArray.__wrap: compare the first two
+   axes of the result with the operands' (Ne, nPg) *)
+Definition swap_pos (a b i : nat) : nat := if i =? a then b else if i =? b then a else i.
+Definition swap_idx (a b : nat) (l : list nat) : list nat :=
+  map (fun i => nth (swap_pos a b i) l 0) (seq 0 (length l)).
+
+Definition fe_swapaxes (a b : Z) (x : operand) : result :=
+  let ar := oarr x in
+  let nd := length (shape ar) in
+  let a' := norm_axis nd a in
+  let b' := norm_axis nd b in
+  wrap [x] (mkArr (swap_idx a' b' (shape ar)) (fun k => dat ar (swap_idx a' b' k))).
+
+Fixpoint concat_pick (j : nat) (arrs : list arr) (k : list nat) : V :=
+  match arrs with
+  | [] => vzero
+  | a :: rest =>
+      let d := nth j (shape a) 0 in
+      let kj := nth j k 0 in
+      if kj <? d then dat a k else concat_pick j rest (set_nth j (kj - d) k)
+  end.
+
+Definition same_off_axis (j : nat) (s t : list nat) : bool := list_eqb (set_nth j 0 s) (set_nth j 0 t).
+
+Definition fe_concat (axis : Z) (xs : list operand) : result :=
+  match xs with
+  | [] => RErr 1
+  | x0 :: _ =>
+      let s0 := oshape x0 in
+      let j := norm_axis (length s0) axis in
+      if (j <? length s0) && forallb (fun x => same_off_axis j s0 (oshape x)) xs then
+        let tot := fold_right Nat.add 0 (map (fun x => nth j (oshape x) 0) xs) in
+        wrap xs (mkArr (set_nth j tot s0) (fun k => concat_pick j (map oarr xs) k))
+      else RErr 1
+  end.
+
+Fixpoint insert_nth {A} (j : nat) (v : A) (l : list A) : list A :=
+  match j, l with
+  | 0, _ => v :: l
+  | S j', x :: r => x :: insert_nth j' v r
+  | S _, [] => [v]
+  end.
+Fixpoint remove_nth {A} (j : nat) (l : list A) : list A :=
+  match j, l with
+  | _, [] => []
+  | 0, _ :: r => r
+  | S j', x :: r => x :: remove_nth j' r
+  end.
+
+Definition fe_stack (axis : Z) (xs : list operand) : result :=
+  match xs with
+  | [] => RErr 1
+  | x0 :: _ =>
+      let s0 := oshape x0 in
+      let j := norm_axis (S (length s0)) axis in
+      if (j <=? length s0) && forallb (fun x => list_eqb s0 (oshape x)) xs then
+        wrap xs (mkArr (insert_nth j (length xs) s0)
+                   (fun k => dat (nth (nth j k 0) (map oarr xs) (scalar_arr vzero)) (remove_nth j k)))
+      else RErr 1
+  end.
+
+(* ---------------- ufunc with out= and the in-place operators ---------------- *)
+(* np.<ufunc>(x, y, out=o): the aligned inputs must broadcast exactly to o's shape (o is one of
+   the inputs for `x += y`); the call returns o itself, so the type is o's *)
+Definition fe_ufunc2_out (op : nat) (x y : operand) (out_shape : list nat) (out_fe : bool) : result :=
+  match fe_ufunc2 op x y with
+  | RFe r | RPlain r =>
+      if list_eqb (shape r) out_shape then (if out_fe then RFe r else RPlain r) else RErr 1
+  | e => e
+  end.
+
 (* ---------------- per-point slices, used by the specifications ---------------- *)
 (* tensor held at element e, Gauss point p: a FeArray is read at (e,p) (with numpy's size-1
    broadcasting of the leading axes), a plain array / scalar is the same constant everywhere *)
@@ -462,7 +557,12 @@ Inductive expr :=
   | EBroadcast (x : operand) (Ne nPg td : nat)
   | ETensorProd (sym : bool) (nd : option nat) (x y : operand)
   | ENorm (axis : option (list Z)) (x : operand)
-  | ENormalize (axis : Z) (x : operand).
+  | ENormalize (axis : Z) (x : operand)
+  | EReduceKd (op : nat) (axis : option (list Z)) (x : operand)
+  | ESwapaxes (a b : Z) (x : operand)
+  | EConcat (axis : Z) (xs : list operand)
+  | EStack (axis : Z) (xs : list operand)
+  | EOut (op : nat) (x y : operand) (out_shape : list nat) (out_fe : bool).
 
 Definition eval (e : expr) : result :=
   match e with
@@ -483,6 +583,11 @@ Definition eval (e : expr) : result :=
   | ETensorProd sym nd x y => fe_TensorProd sym nd x y
   | ENorm axis x => fe_Norm axis x
   | ENormalize axis x => fe_Normalize axis x
+  | EReduceKd op axis x => fe_reduce_kd op axis x
+  | ESwapaxes a b x => fe_swapaxes a b x
+  | EConcat axis xs => fe_concat axis xs
+  | EStack axis xs => fe_stack axis xs
+  | EOut op x y s b => fe_ufunc2_out op x y s b
   end.
 
 (* canonical observable form: (kind code, shape, row-major values) ;
